@@ -54,13 +54,25 @@ type ledger struct {
 	// new limit binds every frame, whenever it was accepted.
 	graceUntil int // index of the last such SETTINGS frame, -1 = none
 	graceMax   int
+
+	// RST_STREAM (round 8). A stream that either end has reset is closed in both directions: nothing pending on it
+	// is owed to the receiver any more, it has no stream window to respect and the sender needs no stream credit for
+	// it. The connection is untouched by the reset: every DATA frame the sender sends on the stream afterwards
+	// (frames in flight when the reset crossed them) still counts against the connection window it was granted
+	// (RFC 7540 sections 5.1 and 6.9), so the relay, which took the frame, owes its flow-controlled length back on
+	// the connection, exactly as for any other frame; and what the relay still forwards on the stream counts
+	// against the receiver's connection window.
+	reset       map[uint32]bool
+	flowAtReset map[uint32]int // flow-controlled bytes the sender had sent on the stream when it was reset
+	afterReset  int            // flow-controlled bytes sent on streams after their reset
 }
 
 func newLedger(dir, fwdDir string, rev bool, snd, rcv *hw.Endpoint, rootIWS, rootMFS int, streams []uint32) *ledger {
 	L := &ledger{dir: dir, fwdDir: fwdDir, rev: rev, snd: snd, rcv: rcv, iws: 65535, mfs: 16384, winConn: 65535,
 		win: map[uint32]int{}, sentFlow: map[uint32]int{}, sentPay: map[uint32]int{}, chunks: map[uint32][]chunk{},
 		esSent: map[uint32]bool{}, recvPay: map[uint32]int{}, recvES: map[uint32]bool{},
-		recvBytes: map[uint32][]byte{}, sentBytes: map[uint32][]byte{}, settingsFrames: 1, graceUntil: -1}
+		recvBytes: map[uint32][]byte{}, sentBytes: map[uint32][]byte{}, settingsFrames: 1, graceUntil: -1,
+		reset: map[uint32]bool{}, flowAtReset: map[uint32]int{}}
 	if rootIWS >= 0 {
 		L.iws = rootIWS
 	}
@@ -119,12 +131,23 @@ func (L *ledger) applyGrant(e ev) {
 	}
 }
 
+// applyReset accounts an RST_STREAM frame for stream s, sent by either end.
+func (L *ledger) applyReset(s uint32) {
+	if !L.reset[s] {
+		L.reset[s] = true
+		L.flowAtReset[s] = L.sentFlow[s]
+	}
+}
+
 // applySend accounts a DATA frame the sender sends.
 func (L *ledger) applySend(e ev) {
 	fl := e.N
 	if e.Pad > 0 {
 		fl += e.Pad
 		L.padSeen = true
+	}
+	if L.reset[e.Stream] {
+		L.afterReset += fl
 	}
 	L.sentFlow[e.Stream] += fl
 	L.sentFlowConn += fl
@@ -150,13 +173,19 @@ func (L *ledger) applySend(e ev) {
 // chunkAt returns the size of the queued payload (chunk of the reference model) that the byte at offset off of
 // stream s belongs to, 0 if there is none.
 func (L *ledger) chunkAt(s uint32, off int) int {
+	n, _ := L.chunkRest(s, off)
+	return n
+}
+
+// chunkRest is chunkAt plus the number of bytes of that payload from offset off to its end.
+func (L *ledger) chunkRest(s uint32, off int) (size, rest int) {
 	for _, c := range L.chunks[s] {
 		if off < c.n {
-			return c.n
+			return c.n, c.n - off
 		}
 		off -= c.n
 	}
-	return 0
+	return 0, 0
 }
 
 func (L *ledger) known(s uint32) bool {
@@ -194,17 +223,28 @@ func (L *ledger) eval(ctx string, add func(sig, format string, a ...interface{})
 			continue
 		}
 		if d.MaxFrame > limit {
-			if q := L.chunkAt(d.Stream, L.recvPay[d.Stream]); lowered && q > 2*limit {
+			q, rest := L.chunkRest(d.Stream, L.recvPay[d.Stream])
+			avail := L.win[d.Stream]
+			if L.winConn < avail {
+				avail = L.winConn
+			}
+			if lowered && q > 2*limit {
 				// the payload the frame is a piece of was accepted under a limit of more than twice the present one:
 				// it needs three or more frames now (a class of its own: one cut is not enough here)
 				add(L.dir+":I2:frame_exceeds_lowered_max_frame_size:data:queued_payload_over_twice_the_limit", "%s: DATA frame of %d bytes (a piece of a payload of %d bytes the relay had accepted and queued under the earlier, larger limit) arrived after the receiver had lowered MAX_FRAME_SIZE to %d and had seen that SETTINGS frame acknowledged", ctx, d.MaxFrame, q, limit)
+			} else if lowered && avail < rest && avail > limit {
+				// round 8: what the receiver had granted when the frame left was less than the queued payload but more
+				// than the lowered limit (a class of its own: a relay that cuts a queued payload to fit a partial grant
+				// must cut the piece against the limit as well; one that never cuts sends nothing here)
+				add(L.dir+":I2:frame_exceeds_lowered_max_frame_size:data:partial_grant_above_the_limit", "%s: DATA frame of %d bytes arrived after the receiver had lowered MAX_FRAME_SIZE to %d and had seen that SETTINGS frame acknowledged; it is a piece of a payload the relay had accepted and queued under the earlier, larger limit (%d of its %d bytes were still queued) and left when the receiver's windows allowed %d bytes: less than the queued payload, more than one frame", ctx, d.MaxFrame, limit, rest, q, avail)
 			} else if lowered {
 				add(L.dir+":I2:frame_exceeds_lowered_max_frame_size:data", "%s: DATA frame of %d bytes arrived after the receiver had lowered MAX_FRAME_SIZE to %d and had seen that SETTINGS frame acknowledged", ctx, d.MaxFrame, limit)
 			} else {
 				add(L.dir+":I2:frame_exceeds_max_frame_size:data", "%s: DATA frame of %d bytes exceeds the receiver's MAX_FRAME_SIZE %d", ctx, d.MaxFrame, limit)
 			}
 		}
-		if d.FlowLen > L.win[d.Stream] {
+		// a stream the receiver or the sender has reset has no stream window any more; the connection window still counts
+		if d.FlowLen > L.win[d.Stream] && !L.reset[d.Stream] {
 			add(L.dir+":I1:stream_window_exceeded", "%s: DATA of %d flow-controlled bytes on stream %d but the receiver's stream window was %d", ctx, d.FlowLen, d.Stream, L.win[d.Stream])
 		}
 		if d.FlowLen > L.winConn {
@@ -247,9 +287,22 @@ func (L *ledger) eval(ctx string, add func(sig, format string, a ...interface{})
 			cls = ":padded"
 		}
 		if cred[0] != L.sentFlowConn {
-			add(L.dir+":I3:connection_credit_mismatch"+cls, "%s: sender has sent %d flow-controlled bytes but was returned %d bytes of connection credit", ctx, L.sentFlowConn, cred[0])
+			if L.afterReset > 0 {
+				// round 8: part of what the sender sent went onto a stream after its RST_STREAM (a class of its own)
+				add(L.dir+":I3:connection_credit_mismatch:data_on_reset_stream"+cls, "%s: sender has sent %d flow-controlled bytes, %d of them on a stream after RST_STREAM had closed it (they count against the connection window all the same, RFC 7540 sections 5.1 and 6.9), but was returned %d bytes of connection credit", ctx, L.sentFlowConn, L.afterReset, cred[0])
+			} else {
+				add(L.dir+":I3:connection_credit_mismatch"+cls, "%s: sender has sent %d flow-controlled bytes but was returned %d bytes of connection credit", ctx, L.sentFlowConn, cred[0])
+			}
 		}
 		for _, s := range L.streams {
+			if L.reset[s] {
+				// a closed stream needs no credit: whatever was sent on it before the reset must have been credited
+				// (credit is returned on acceptance), what was sent afterwards may or may not be, never more
+				if cred[s] < L.flowAtReset[s] || cred[s] > L.sentFlow[s] {
+					add(L.dir+":I3:stream_credit_mismatch:reset_stream"+cls, "%s: sender has sent %d flow-controlled bytes on stream %d, %d of them before RST_STREAM closed it, but was returned %d bytes of stream credit", ctx, L.sentFlow[s], s, L.flowAtReset[s], cred[s])
+				}
+				continue
+			}
 			if cred[s] != L.sentFlow[s] {
 				add(L.dir+":I3:stream_credit_mismatch"+cls, "%s: sender has sent %d flow-controlled bytes on stream %d but was returned %d bytes of stream credit", ctx, L.sentFlow[s], s, cred[s])
 			}
@@ -262,6 +315,11 @@ func (L *ledger) eval(ctx string, add func(sig, format string, a ...interface{})
 	}
 	// I4 stranding (frame granularity: the relay's own chunks)
 	for _, s := range L.streams {
+		if L.reset[s] {
+			// nothing is owed on a stream that was reset, and what still arrives on it is ignored by the receiver
+			// (only its size and its weight on the connection window were judged above)
+			continue
+		}
 		delivered := L.recvPay[s]
 		all := true
 		for _, c := range L.chunks[s] {
@@ -272,7 +330,13 @@ func (L *ledger) eval(ctx string, add func(sig, format string, a ...interface{})
 				}
 				all = false
 				if delivered > 0 {
-					break // the relay cut a frame differently: bytes are judged, frames are not
+					// the relay cut a frame differently (it may cut a frame to fit a window, it need not): bytes are
+					// judged, frames are not. What is left of the payload is owed once it fits both windows, whichever
+					// way the relay cuts (round 8).
+					if r := c.n - delivered; r <= L.win[s] && r <= L.winConn {
+						add(L.dir+":I4:stranded_data:rest_of_a_cut_payload", "%s: the last %d bytes of a payload of %d bytes, the rest of which was delivered, are pending on stream %d with stream window %d and connection window %d but were not delivered", ctx, r, c.n, s, L.win[s], L.winConn)
+					}
+					break
 				}
 				if c.n <= L.win[s] && c.n <= L.winConn {
 					add(L.dir+":I4:stranded_data", "%s: %d bytes are pending on stream %d with stream window %d and connection window %d but were not delivered", ctx, c.n, s, L.win[s], L.winConn)
